@@ -26,16 +26,46 @@ def _val(v, depth=0):
         return ['<set>'] + sorted((_val(x, depth + 1) for x in v), key=repr)
     if isinstance(v, dict):
         return {repr(_val(k, depth + 1)): _val(x, depth + 1) for k, x in v.items()}
-    if hasattr(v, '__dict__'):
+    if hasattr(v, '__dict__') or hasattr(type(v), '__slots__'):
         return obj_tuple(v, depth + 1)
     return f'<{type(v).__name__}>'
 
 
+_ABSENT = object()
+
+
+def public_attrs(o):
+    """(name, value) of every public data attribute of o, wherever it is stored: instance dict, __slots__, or a property of
+    its class. How a class stores its state is an implementation detail; what can be read through obj.<name> is the API."""
+    names = []
+    d = getattr(o, '__dict__', None)
+    if isinstance(d, dict):
+        names.extend(d)
+    for klass in type(o).__mro__:
+        slots = klass.__dict__.get('__slots__', ())
+        if isinstance(slots, str):
+            slots = (slots,)
+        names.extend(slots or ())
+        for n, v in klass.__dict__.items():
+            if isinstance(v, property):
+                names.append(n)
+    out, seen = [], set()
+    for n in names:
+        if n in seen or n.startswith('_'):
+            continue
+        seen.add(n)
+        try:
+            v = getattr(o, n, _ABSENT)
+        except Exception as e:       # a property that raises: the exception class is its observable value
+            v = f'<raises {type(e).__name__}>'
+        if v is not _ABSENT:
+            out.append((n, v))
+    return out
+
+
 def obj_tuple(o, depth=0):
     d = {'__class__': type(o).__name__}
-    for k, v in vars(o).items():
-        if k.startswith('_'):
-            continue
+    for k, v in public_attrs(o):
         d[k] = _val(v, depth)
     return d
 
@@ -79,9 +109,8 @@ def doc_snapshot(doc, with_errors_text=False):
         row = []
         for node in stage:
             sig = node.last_signature_nodes.nodes if node.last_signature_nodes is not None else None
-            extra = {k: _val(v) for k, v in vars(node).items()
-                     if k not in ('id', 'token', 'parent', 'children', 'stage', 'header_node', 'last_signature_nodes', 'last_spine_operator_node')
-                     and not k.startswith('_')}
+            extra = {k: _val(v) for k, v in public_attrs(node)
+                     if k not in ('id', 'token', 'parent', 'children', 'stage', 'header_node', 'last_signature_nodes', 'last_spine_operator_node')}
             row.append({
                 'rel_id': node.id - base_id,
                 'stage': node.stage,
@@ -105,8 +134,8 @@ def doc_snapshot(doc, with_errors_text=False):
         seen.add(id(n))
         reach += 1
         stack.extend(n.children)
-    doc_extra = {k: _val(v) for k, v in vars(doc).items()
-                 if k not in ('tree', 'measure_start_tree_stages', 'page_bounding_boxes', 'header_stage') and not k.startswith('_')}
+    doc_extra = {k: _val(v) for k, v in public_attrs(doc)
+                 if k not in ('tree', 'measure_start_tree_stages', 'page_bounding_boxes', 'header_stage')}
     return {
         'stages': stages,
         'reachable_nodes': reach,
